@@ -247,6 +247,13 @@ fn mode_scripted_sdk(case: &Value) -> Value {
         let out = case["recorder_output"].as_str().unwrap_or("true").to_string();
         context.commands.set(Box::new(Recorder { name: n.as_str().unwrap().to_string(), log: log.clone(), output: Some(out) })).unwrap();
     }
+    // commands that fail with the next message of a queue
+    let fail_queue = Rc::new(RefCell::new(
+        case["fail_messages"].as_array().cloned().unwrap_or_default().iter().map(|m| json!({"kind": "error", "message": m})).collect::<Vec<Value>>(),
+    ));
+    for n in case["failers"].as_array().cloned().unwrap_or_default() {
+        context.commands.set(Box::new(Scripted { name: n.as_str().unwrap().to_string(), log: log.clone(), results: fail_queue.clone() })).unwrap();
+    }
     if let Some(vars) = case["vars"].as_object() {
         for (k, v) in vars {
             context.variables.insert(k.clone(), v.as_str().unwrap_or("").to_string());
